@@ -279,3 +279,28 @@ def gen(ctx):
 
 
 UNITS = [Unit("writers", gen, check, shards=(4, 16))]
+
+
+# ----------------------------------------------------------------------------------------------- the writers behind the command line
+
+def gen_cli_write(ctx):
+    """every writer reached through `treetools transform` (runpy, in this process) from an export source: all five
+    destination formats, output options given as --dest-opts (incl. options of other writers, which must be inert),
+    destination encodings; decoded by the independent decoders and compared with the projection of the source model
+    (oracle and projection table of checks/C03.py)"""
+    from checks import C03
+    quick = ctx.tier == "quick"
+
+    def body(case):
+        C03.check(case)
+        ctx.count(key=case, nontrivial=not C03.trivial(case), classes=["cli-write:" + c for c in C03.classes_of(case)])
+    ctx.hyp(C03.conv_case(7 if quick else 10, 4 if quick else 6, 0.0, srcs=["export"]), body, max_examples=80 if quick else 800, shrink=False,
+            smaller=C03.smaller)
+
+
+def check_cli_write(case):
+    from checks import C03
+    return C03.check(case)
+
+
+UNITS.append(Unit("cli_write", gen_cli_write, check_cli_write, shards=(4, 8)))
